@@ -2,6 +2,8 @@ package main
 
 import (
 	"go/token"
+	"go/types"
+	"strings"
 
 	"golang.org/x/tools/go/ssa"
 )
@@ -143,6 +145,77 @@ func clSkiplistRefreshOrder(c *Ctx) {
 		}
 	}
 	c.Check(okNew, fn, a, "the new session is recorded in the iterator", "the iterator forgets the session it acquired: it is never released")
+}
+
+// The skiplist cursor owns one barrier session token from construction to
+// Close/Pause: the constructor stores the acquired token, Close and Pause give
+// it back whenever one is held.
+func clSkiplistCursorSession(c *Ctx) {
+	p := c.P
+	acq := p.Func("skiplist", "AccessBarrier", "Acquire")
+	rel := p.Func("skiplist", "AccessBarrier", "Release")
+	fBs := p.Field("skiplist", "Iterator", "bs")
+	// every Acquire made on behalf of a cursor is recorded in Iterator.bs
+	n := 0
+	for _, g := range p.Funcs {
+		if g.Package().Pkg.Path() != modPath+"/skiplist" {
+			continue
+		}
+		isCursorFn := false
+		if sig := g.Signature; sig.Recv() != nil {
+			if pt, ok := sig.Recv().Type().(*types.Pointer); ok {
+				if nt, ok := pt.Elem().(*types.Named); ok && nt.Obj().Name() == "Iterator" {
+					isCursorFn = true
+				}
+			}
+		}
+		ctor := strings.HasPrefix(g.Name(), "NewIterator")
+		if !isCursorFn && !ctor {
+			continue
+		}
+		for _, in := range p.Own(g) {
+			if !p.IsCall(in, acq) {
+				continue
+			}
+			n++
+			kept := false
+			for _, w := range p.fieldWrites(fBs) {
+				if w.kind == "store" && strip(w.val) == in.(ssa.Value) && p.sameRoot(w.fn, g) {
+					kept = true
+				}
+			}
+			c.Check(kept, g, in, "a session token acquired for a cursor is recorded in Iterator.bs", "the cursor forgets its token: it can never be released, the session never terminates")
+		}
+	}
+	if n < 2 {
+		undecidedf("skiplist cursor: only %d Acquire sites found", n)
+	}
+	for _, name := range []string{"Close", "Pause"} {
+		fn := p.Func("skiplist", "Iterator", name)
+		fi := p.Info(fn)
+		isRel := func(x ssa.Instruction) bool {
+			if !p.IsCall(x, rel) {
+				return false
+			}
+			f, b := loadedField(callOf(x).Args[1])
+			return f == fBs && strip(b) == strip(fn.Params[0])
+		}
+		esc := fi.PathAvoidingEdges(nil, func(x ssa.Instruction) bool {
+			r, ok := x.(*ssa.Return)
+			return ok && r.Block() != fn.Recover
+		}, isRel, func(pb, sb *ssa.BasicBlock) bool {
+			// the branch on which no token is held needs no release
+			for f := range fi.EdgeFactSet(pb, sb) {
+				cmp, ok := cmpOf(f.V, f.Val)
+				if ok && cmp.match(token.EQL, loadsField(fBs), isNilConst) {
+					return true
+				}
+			}
+			return false
+		})
+		c.Check(esc == nil, fn, nil, "skiplist Iterator."+name+" releases the session token whenever one is held",
+			"a closed (or paused) cursor keeps its token: the session it was counted in never terminates, so nothing retired from then on is ever freed")
+	}
 }
 
 // C09.a': Refresh re-seeks by key only and therefore must only run while the
